@@ -302,6 +302,10 @@ def alloc_src(case):
     if kind == "alloc_of_dim":
         L.append(P + "%buf = memref.alloc(%d) : memref<?xi32>")
         L.append(P + f'"test.op"(%buf, {idxs[-1]}) {{tag = "use"}} : (memref<?xi32>, index) -> ()')
+    elif kind == "alloc_and_use_of_dim":
+        # the dim sizes an allocation AND is used by something else: it has to keep its run-time value
+        L.append(P + "%buf = memref.alloc(%d) : memref<?xi32>")
+        L.append(P + f'"test.op"(%buf, %d, {idxs[-1]}) {{tag = "use"}} : (memref<?xi32>, index, index) -> ()')
     elif kind == "alloc_static":
         L.append(P + "%buf = memref.alloc() : memref<16xi32>")
         L.append(P + f'"test.op"(%buf, %d, {idxs[-1]}) {{tag = "use"}} : (memref<16xi32>, index, index) -> ()')
@@ -359,7 +363,7 @@ def case_alloc(case):
         return ok, d
 
     def sig(f, v):
-        return f"reuse_memref_allocs:{f['name'].split(':')[0]}|size_from_{case[5]}"
+        return f"reuse_memref_allocs:{f['name'].split(':')[0]}|size_from_{case[5]}" + ("|dim_also_used_elsewhere" if case[0] == "alloc_and_use_of_dim" else "")
 
     return run_case(fn, replay, signature=sig, sample=dict(case=str(case)), key=str(case), max_paths=200)
 
@@ -426,6 +430,11 @@ def run(chk):
                             cases.append((kind, depth, rank, dynmask, dimidx, size_src))
     if quick and len(cases) > 260:
         cases = rnd.sample(cases, 260)
+    # a dim that sizes an allocation and has another user as well (fixed, whatever the seed)
+    for depth in (1, 2):
+        for rank, dynmask in ((1, (True,)), (2, (True, False)), (2, (True, True))):
+            for size_src in ("min", "iv", "dim"):
+                cases.append(("alloc_and_use_of_dim", depth, rank, dynmask, 0, size_src))
     if only in (None, "alloc"):
         chk.add_results("reuse_memref_allocs", pmap(case_alloc, cases, chunks=2))
     chk.bounds = dict(nest_depth="<=3", steps=list(steps), subview_rank="1..3 quick / 1..4 thorough", loop_depth_allocs="1..2")
